@@ -46,8 +46,15 @@ const accept2 = `application/jrd+json`
 
 var requestRe = regexp.MustCompile(`^GET (/[^\x00-\x20\x7f]*) HTTP/1\.0\r\nHost: ([^\r\n]*)\r\nAccept: ([^\r\n]*)\r\n\r\n$`)
 
+// the listener's address written as an IPv4-mapped IPv6 literal with a zone (the zone names an interface of this
+// machine, not another host)
+var mappedWithZone = regexp.MustCompile(`^\[::ffff:127\.0\.0\.1%[^\x00-\x20\x7f\]]*\]:[0-9]+$`)
+
 // judge is the byte-exact request recogniser applied to every connection.
 func judge(conn vsim.Conn) error {
+	if !conn.TLS && conn.Aborted {
+		return nil // a handshake that was given up (the certificate does not match the name asked for): nothing left the program
+	}
 	if !conn.TLS {
 		return fmt.Errorf("a connection to host %d did not negotiate TLS (request bytes %q)", conn.Host, conn.Request)
 	}
@@ -61,7 +68,7 @@ func judge(conn vsim.Conn) error {
 	host := string(m[2])
 	auth := sim.Authority(conn.Host)
 	port := auth[strings.LastIndex(auth, ":"):]
-	if !(strings.EqualFold(host, auth) || strings.EqualFold(host, "localhost"+port) || strings.EqualFold(host, auth+".")) {
+	if !(strings.EqualFold(host, auth) || strings.EqualFold(host, "localhost"+port) || strings.EqualFold(host, auth+".") || strings.EqualFold(host, "[::ffff:127.0.0.1]"+port) || mappedWithZone.MatchString(host) && strings.HasSuffix(host, "]"+port)) {
 		return fmt.Errorf("Host header %q does not designate the listener %s that was contacted", host, auth)
 	}
 	if a := string(m[3]); a != accept1 && a != accept2 {
@@ -220,7 +227,7 @@ var queries = []pe{{"", "-"}, {"?x=1", "-"}, {"?", ""}, {"?x=a b", ""}, {"?x=a%2
 var fragments = []string{"", "", "#f", "#", "#a b", "#\r\nX: y", "#%0d%0a"}
 var schemes = []string{"https", "https", "https", "https", "https", "https", "https", "https", "https", "https", "https", "https", "https", "https", "https", "https", "HTTPS", "Https", "http", "", "gemini", "ftp", "https+x", "file", "javascript"}
 var userinfos = []string{"", "", "", "", "", "", "", "", "user:pw@", "a%0d%0ab@", "@", "u@", ":@", "a b@"}
-var authorities = []string{"%H0%", "%H0%", "%H1%", "%H0%", "%H0%", "%H1%", "%H0%", "%H0%", "%H1%", "%H0%", "%H0%", "%H1%", "%H0%", "%H0%", "%H1%", "%H0%", "%H1%", "%CANARY%", "%CLOSED%", "%H0%.", "LOCALHOST%PORT0%", "%H0%:", "%H0% ", "%H0%\r\nX-A: b", "[::1]%PORT0%", "", "%H0%:99999", "%H0%:0x50", "%HW16%", "%HW17%", "%HW32%", "%HW33%", "%HW32%", "%H0%%20", "%H0%%0d%0aX-A:%20b"}
+var authorities = []string{"%H0%", "%H0%", "%H1%", "%H0%", "%H0%", "%H1%", "%H0%", "%H0%", "%H1%", "%H0%", "%H0%", "%H1%", "%H0%", "%H0%", "%H1%", "%H0%", "%H1%", "%CANARY%", "%CLOSED%", "%H0%.", "LOCALHOST%PORT0%", "%H0%:", "%H0% ", "%H0%\r\nX-A: b", "[::1]%PORT0%", "[::ffff:127.0.0.1]%PORT0%", "[::ffff:127.0.0.1%25eth0]%PORT0%", "", "%H0%:99999", "%H0%:0x50", "%HW16%", "%HW17%", "%HW32%", "%HW33%", "%HW32%", "%H0%%20", "%H0%%0d%0aX-A:%20b"}
 
 // expandPort fills in the port of listener 0 - also as numbers that are no port at all but wrap around to it when
 // truncated to 16 bits (%HW16%) or in a 32-bit parser (%HW32%, %HW33%).
@@ -258,7 +265,8 @@ func genURLParts(t *rapid.T, c *Case, planted bool) {
 }
 
 var accts = []string{"alice", "a b", "a%0d%0ab", "a\r\nX: y", "a&resource=evil", "a#b", "ü", "", "a@b", "acct:alice", "a?x=1", "a=b", "a+b", "%", "a\x00b"}
-var domains = []string{"%H0%", "%H0%", "%H0%", "%H0%", "%H0%", "%H0%", "%H0%", "%H0%", "%H0%/evil?x=", "%H0%\r\nX-Injected: 1", "%H0%#f", "%H0%?x", "user@%H0%", "%CANARY%", "%CLOSED%", "[::1]%PORT0%", "[::1%25\r\nX-Injected: 1]%PORT0%",
+var domains = []string{"%H0%", "%H0%", "%H0%", "%H0%", "%H0%", "%H0%", "%H0%", "%H0%", "%H0%/evil?x=", "%H0%\r\nX-Injected: 1", "%H0%#f", "%H0%?x", "user@%H0%", "%CANARY%", "%CLOSED%", "[::1]%PORT0%", "[::1%25\r\nX-Injected: 1]%PORT0%", "[::ffff:127.0.0.1]%PORT0%", "[::ffff:127.0.0.1%\r\nX-Injected: yes]%PORT0%", "[::ffff:127.0.0.1%25\r\nX-Injected: yes]%PORT0%", "[::ffff:127.0.0.1%eth0]%PORT0%",
+	"[::ffff:127.0.0.1%\r\n\r\nGET /second HTTP/1.0\r\nHost: x\r\n]%PORT0%",
 	"%H0% ", " %H0%", "%H0%:", "", "%H0%@%H1%", "%H0%\\@x", "%H0%%0d%0aX-A:%20b", "LOCALHOST%PORT0%", "%HW16%", "%HW32%", "%H0%\nX: y", "127.0.0.1\r\nX: y%PORT0%"}
 
 func gen(t *rapid.T) Case {
